@@ -244,6 +244,47 @@ def setup_args(case):
     return dict(initial_conditions=ics, parameter_conditions=pc_arg)
 
 
+def ramp(c, item):
+    """a measured species defined by an assignment rule that reads the time (Y = m*t + A, A decaying with rate k1), trajectories
+    whose time grids start at 0 and later: closed form A(t) = A0 exp(-k1 (t - t_first)), Y(t) = m t + A(t)"""
+    import pandas as pd
+    from bioscrape.types import Model
+    from bioscrape.inference_setup import InferenceSetup
+    starts, meas, norm = item
+    c.count('states')
+    m_ = 0.75
+    grids = [np.array([s0 + d for d in (0.0, 0.25, 0.5, 1.0, 1.5)]) for s0 in starts]
+    a0 = [4.0 + n for n in range(len(starts))]
+
+    def traj(k1, n):
+        t = grids[n]
+        A_ = a0[n] * np.exp(-k1 * (t - t[0]))
+        return dict(A=A_, Y=m_ * t + A_)
+    dfs = []
+    for n in range(len(starts)):
+        tr = traj(0.9, n)
+        dfs.append(pd.DataFrame(dict(time=grids[n], A=tr['A'] + 0.1 + 0.01 * n, Y=tr['Y'] + 0.2 + 0.003 * np.arange(5))))
+    model = Model(species=['A', 'Y'], reactions=[(['A'], [], 'massaction', {'k': 'k1'})], parameters=[('k1', 0.8), ('m', m_)],
+                  rules=[('assignment', {'equation': 'Y = m*t + A'})], initial_condition_dict={'A': 2.0, 'Y': 0.0})
+    ins = InferenceSetup(Model=model, prior={'k1': ['uniform', 0.0, 3.0]}, params_to_estimate=['k1'], exp_data=dfs if len(dfs) > 1 else dfs[0],
+                         measurements=list(meas), time_column='time', initial_conditions=[{'A': v} for v in a0] if len(dfs) > 1 else {'A': a0[0]},
+                         norm_order=norm, sim_type='deterministic')
+    for th in (0.5, 1.3, 0.5):
+        got = float(ins.cost_function([th]))
+        tot = 0.0
+        for n in range(len(starts)):
+            tr = traj(th, n)
+            for s_ in meas:
+                tot += float(np.sum(np.abs(dfs[n][s_].to_numpy() - tr[s_]) ** norm))
+        exp = math.log(1.0 / 3.0) - tot ** (1.0 / norm)
+        c.count('evaluations'); c.count('transitions'); c.count('traces')
+        if not math.isfinite(got) or abs(got - exp) > 1e-5 * (1 + abs(exp)):
+            c.violation('C15/time-rule/value', 'grids starting at %s, measured %s: cost(%r) = %r, stated posterior %r' % (list(starts), list(meas), th, got, exp),
+                        dict(ramp=[list(starts), list(meas), norm]))
+            return
+    c.nontrivial(('ramp', tuple(starts), tuple(meas), norm))
+
+
 def stochastic_alignment(c, item):
     """stochastic cost on a model whose trajectory is stream-independent (all rates zero): data equal to the constant
     state in the right column gives cost log-prior - 0; any misalignment of columns or trajectories changes it."""
@@ -335,6 +376,8 @@ def run(ctx):
                     for chain in ((False,) if ctx.quick and N == 3 else (False, True)):
                         ru.append((a_, b_, chain))
     pmap(reuse, ru, ctx, nshards=64)
+    rp = [(st_, ms_, nm_) for st_ in ((0.0,), (1.0,), (0.0, 2.0), (2.0, 1.0), (1.0, 0.0, 0.5)) for ms_ in (['Y'], ['A', 'Y'], ['Y', 'A']) for nm_ in (1, 2)]
+    pmap(ramp, rp, ctx, nshards=len(rp))
     st = [(N, meas) for N in (1, 2, 3) for meas in (['A'], ['A', 'B'], ['B', 'C', 'A'])]
     pmap(stochastic_alignment, st, ctx, nshards=len(st))
     ctx.bounds = dict(reuse_pairs=len(ru), cases=len(cs), history_length=cs[0]['hist_len'], thetas=THETAS)
@@ -344,12 +387,14 @@ def run(ctx):
                 'data differ per species, trajectory and time so any misalignment changes the value. For each case: LL_data alignment, '
                 'cost(theta) against the closed form at 5 points (one repeated, one outside the prior support -> -inf), every sequence of '
                 'evaluations up to the history bound against a fresh InferenceSetup (1e-9), every permutation of measurement columns and of '
-                'trajectories; one InferenceSetup object re-used for a second (and back to the first, and the second again) experiment through set_exp_data / set_initial_conditions / set_parameter_conditions + prepare_inference + setup_cost_function, with another time column of the same length; plus the stochastic cost on a stream-independent model. states = cases; non-trivial = more than one '
+                'trajectories; one InferenceSetup object re-used for a second (and back to the first, and the second again) experiment through set_exp_data / set_initial_conditions / set_parameter_conditions + prepare_inference + setup_cost_function, with another time column of the same length; a measured species defined by a time-reading assignment rule on trajectories whose grids start at 0 and later; plus the stochastic cost on a stream-independent model. states = cases; non-trivial = more than one '
                 'measured species or trajectory.')
     ctx.assumptions = ['reference trajectories by scipy.linalg.expm; deterministic cost compared at 1e-5 relative (odeint tolerance)']
 
 
 def replay(ctx, case):
+    if 'ramp' in case:
+        return ramp(ctx, (tuple(case['ramp'][0]), case['ramp'][1], case['ramp'][2]))
     if 'reuse' in case:
         return reuse(ctx, tuple(case['reuse']))
     if 'case' in case:
